@@ -9,7 +9,7 @@ ls -d /verif/seeded/*/ | while read d; do
   n=$(basename $d); [ -f $d/patch.diff ] || continue
   ids=$(grep -oE "^(DETECTED|missed) +C[0-9]+" $d/checks.txt 2>/dev/null | awk '{print $2}' | sort -u | tr '\n' ' ')
   [ -z "$ids" ] && ids=$(jq -r .property $d/meta.json)
-  echo "$n $ids"
+  echo "$n $ids" | sed "s| *$||"
 done > /tmp/reeval.list
 run_one() { n=$1; shift; slot=$1; shift
   ISO_TAG=-$slot ISO_SRC=/tmp/iso-snap /verif/tools/iso_check.sh /verif/seeded/$n/patch.diff "$@" > /tmp/reeval-$n.txt 2>&1
